@@ -38,7 +38,12 @@ def run(ctx):
         ctx.count("mode:%d" % mode)
         names = list(curves)
         ref = curves[names[0]]
-        tok = core.ejordan_ctrl(ctrl)
+        # (a piece whose control points are collinear and equally spaced is a straight line in disguise: the constructors reduce it, exactly as the
+        #  model's `cleanSeg` does - the EXPECTED curve is the description after that reduction)
+        ctrl_eff = ctrl if mode == 0 else [[tuple(p) for p in core.dseg(drv.ask("cleanseg " + core.eseg(c)))] for c in ctrl]
+        if ctrl_eff != [[tuple(p) for p in c] for c in ctrl]:
+            ctx.count("description-with-reducible-piece")
+        tok = core.ejordan_ctrl(ctrl_eff)
         exp_vertices = core.dpts(drv.ask("vertices " + tok))
         eb = core.Toks(drv.ask("jbox " + tok)); elo, ehi = eb.pt(), eb.pt()
         earea = F(drv.ask("jarea " + tok))
@@ -51,7 +56,7 @@ def run(ctx):
                 ctx.check(ok, "vertices of from_full_curve", d2, exp_vertices, got_v)
             else:
                 ctx.check(got_v == exp_vertices, "vertices are not each control point once, in order", d2, exp_vertices, got_v)
-                ctx.check(shapes.geom(J) == [[tuple(p) for p in c] for c in ctrl], "segments differ from the description", d2)
+                ctx.check(shapes.geom(J) == [[tuple(p) for p in c] for c in ctrl_eff], "segments differ from the description", d2)
                 b = J.box()
                 ctx.check((tuple(b.lowpt), tuple(b.toppt)) == (elo, ehi), "box()", d2, (elo, ehi), (tuple(b.lowpt), tuple(b.toppt)))
                 ctx.check(IntegrateJordan.area(J) == earea, "area", d2, earea, IntegrateJordan.area(J))
